@@ -17,11 +17,14 @@ for d in sorted(glob.glob(os.path.join(root, "seeded", "*/")), key=key):
         summ = summ[:167] + "..."
     note = (m.get("note") or "").replace("|", "/")
     stats["total"] += 1
-    if note.startswith("missed"):
+    kind_note = note.replace("; patch context refreshed", "|").split("|")[0]
+    if kind_note.startswith("patch context refreshed"):
+        kind_note = ""
+    if kind_note.startswith("missed"):
         stats["missed_first"] += 1
-    elif "harness" in note:
+    elif "harness" in kind_note:
         stats["harness"] += 1
-    elif note:
+    elif kind_note:
         stats["other_check"] += 1
     rows.append(f"| {name} | {summ} | {', '.join(m['caught_by'])} | {note} |")
 table = "| seed | change (abridged) | caught by | note |\n|------|-------------------|-----------|------|\n" + "\n".join(rows) + "\n"
